@@ -114,7 +114,10 @@ ExtraPolys(k, l) ==
       bset == BoundChoices(k, top) \ {NONE}
       bb == IF bset = {} THEN NONE ELSE MaxOf(bset)
       hh == IF HonoursHiding(S) /\ k.hid >= 1 THEN 1 ELSE NONE
-  IN { [l |-> l, cls |-> "full", deg |-> d1, lz |-> 0, bound |-> NONE, hid |-> NONE],
+  IN (IF S = "pst13"       \* same degree and number of terms as the class "uni", disjoint support
+      THEN {[l |-> l, cls |-> "unilast", deg |-> top, lz |-> 0, bound |-> NONE, hid |-> NONE]} ELSE {})
+     \cup
+     { [l |-> l, cls |-> "full", deg |-> d1, lz |-> 0, bound |-> NONE, hid |-> NONE],
        [l |-> l, cls |-> "full", deg |-> top, lz |-> 0, bound |-> bb, hid |-> hh],
        [l |-> l, cls |-> "const", deg |-> MinOf(DegChoices(k)), lz |-> 0, bound |-> NONE, hid |-> NONE] }
 
@@ -186,7 +189,17 @@ OpSpace ==
 \* keyed by label: the order in which the caller lists them carries no meaning.  `perm` = 0: ascending labels
 \* on both sides; 1: the prover's lists reversed; 2: the verifier's commitment list reversed; 3: both.
 ListOrders == IF Mode = "C01" /\ MaxPolys >= 2 THEN {0, 1, 2, 3} ELSE {0}
-OpSpaceP == {o @@ [perm |-> p] : o \in OpSpace, p \in ListOrders} \ {o @@ [perm |-> p] : o \in {x \in OpSpace : x.kind = "open"}, p \in {1, 2, 3}}
+OpSpaceP0 == {o @@ [perm |-> p] : o \in OpSpace, p \in ListOrders} \ {o @@ [perm |-> p] : o \in {x \in OpSpace : x.kind = "open"}, p \in {1, 2, 3}}
+\* Open-stage admission (C04, C17): the polynomial is handed to the prover DECLARED with another degree bound
+\* than the one it was committed under -- one it exceeds, or one the keys were not trimmed for.  The prover must
+\* refuse (the committer would have): obound = <<label, declared bound>>
+RedeclaredOpens ==
+  IF Mode \in {"C04A", "C17"} /\ EnforcesBounds(S) /\ "open" \in OpKinds /\ polys # <<>> /\ polys[1].bound # NONE
+  THEN {[kind |-> "open", labels |-> SortInts(L), pt |-> 1, qs |-> {}, lcs |-> <<>>, perm |-> 0, obound |-> <<1, d>>] :
+          d \in {x \in 0..pp.maxdeg : x # polys[1].bound
+                                      /\ BoundClass(S, pp.maxdeg, keys, [polys[1] EXCEPT !.bound = x]) = "refuse"}}
+  ELSE {}
+OpSpaceP == {o @@ [obound |-> <<>>] : o \in OpSpaceP0} \cup RedeclaredOpens
 
 \* --------------------------------------------------------------------------
 \* honest artefacts
@@ -236,7 +249,7 @@ LcLookup(lcs) == [e \in {lcs[j].l : j \in DOMAIN lcs} |->
                     [src |-> 1000 + e, bound |-> LcBoundP(lcs[LcByLabel(lcs, e)]).bound]]
 
 OpenClassOf(o) ==
-  LET base == OpenClass(S, keys, polys, rng) IN
+  LET base == IF o.obound # <<>> THEN "refuse" ELSE OpenClass(S, keys, polys, rng) IN
   \* every implementation looks the queried labels up first: MissingPolynomial
   IF o.kind = "batch" /\ \E q \in o.qs : q[1] \notin L THEN "refuse"
   ELSE IF o.kind = "lc" /\ LCImpl(S) # "default"
@@ -826,6 +839,7 @@ ExpClass(c) == IF c = "zero_hid" /\ Mode # "C17" THEN "any" ELSE Expect(c)
 RevOrder == [i \in 1..MaxPolys |-> MaxPolys + 1 - i]
 OpJson(o) == [kind |-> o.kind, labels |-> o.labels, pt |-> o.pt,
               qs |-> SortTuples(o.qs), lcs |-> o.lcs,
+              obound |-> o.obound,
               pperm |-> IF o.perm \in {1, 3} THEN RevOrder ELSE <<>>,
               vperm |-> IF o.perm \in {2, 3} THEN RevOrder ELSE <<>>]
 Behaviour ==
